@@ -24,12 +24,11 @@ self._estimate_model_statistics(...)      -- `Result.stats`
 if diff < self.tol: return
 print('did not converge')                 -- `Result.printed`
 ```
-Known peculiarities of the code that the abstraction absorbs (reported by the harness as suspected defects,
-not modelled further): in the first iteration of a model that is not a `LinearGAM` instance `coef_` has
+Behaviour of the code that the abstraction absorbs (counted by the harness as `observed-quirk`, the
+property speaks of the *recorded* diff and does not mention weights for the logged deviance): in the first iteration of a model that is not a `LinearGAM` instance `coef_` has
 shape `(m, 1)` (`_initial_estimate`), so `diff` is the Frobenius norm of the broadcast `(m, m)` difference
 over `‖coef_new‖`, not the relative change; `Deviance.on_loop_start` is not given the sample weights
-(`Obs.dev` is the unweighted deviance over the rows that survive `_mask`); `co_varnames` includes the local
-variables of a hook, so `Hook.expects` does too.
+(`Obs.dev` is the unweighted deviance over the rows that survive `_mask`).
 
 `logs_` is created only when missing (`if not hasattr(self, 'logs_')`), so a refit **appends** to
 the logs of the previous fits: `pirls` takes the old events and returns old ++ new.
@@ -139,8 +138,9 @@ def endOnlyVars : List String :=
 
 def endVars (hasConstraint : Bool) : List String := startVars hasConstraint ++ endOnlyVars
 
-/-- `expected = method.__code__.co_varnames` (parameters **and** local variables of the hook);
-`self` is skipped; every other name must be a key of `vars()` -/
+/-- `expected = code.co_varnames[: code.co_argcount]` — the *arguments* of the hook, not its local
+variables (callbacks.py since commit 0a01318); `self` is skipped; every other name must be a key of
+`vars()` -/
 def missing (avail expected : List String) : List String :=
   expected.filter (fun e => e != "self" && !avail.contains e)
 
@@ -148,10 +148,15 @@ def bindOk (avail expected : List String) : Bool := (missing avail expected).isE
 
 /-! ## callbacks -/
 
-/-- one hook: the names it binds and what it returns -/
+/-- one hook: its argument names (`expects`, bound from `vars()`), what it returns, and the names of
+its local variables (`co_varnames[co_argcount:]`), which play no role in the binding -/
 structure Hook (F : Type) where
   expects : List String
   fn : F
+  locals : List String
+
+/-- the names `validate_callback_data` looks up in `vars()`: the arguments only -/
+def Hook.bound {F : Type} (h : Hook F) : List String := h.expects
 
 /-- a validated callback object.  `name = str(callback)` is the key of `logs_`.
 `onStart k c`: return value at the start of iteration `k` (0-based, the loop variable `_`) when
@@ -172,10 +177,10 @@ structure Obs (C D V : Type) where
   diffV : D → V    -- `diff`
 
 def builtin {C D V : Type} (o : Obs C D V) : Builtin → Callback C D V
-  | .deviance => ⟨"deviance", some ⟨["gam", "y", "mu"], fun _ c => o.dev c⟩, none⟩
-  | .accuracy => ⟨"accuracy", some ⟨["y", "mu"], fun _ c => o.acc c⟩, none⟩
-  | .coef => ⟨"coef", some ⟨["gam"], fun _ c => o.coefV c⟩, none⟩
-  | .diffs => ⟨"diffs", none, some ⟨["diff"], fun _ _ _ d => o.diffV d⟩⟩
+  | .deviance => ⟨"deviance", some ⟨["gam", "y", "mu"], fun _ c => o.dev c, []⟩, none⟩
+  | .accuracy => ⟨"accuracy", some ⟨["y", "mu"], fun _ c => o.acc c, []⟩, none⟩
+  | .coef => ⟨"coef", some ⟨["gam"], fun _ c => o.coefV c, []⟩, none⟩
+  | .diffs => ⟨"diffs", none, some ⟨["diff"], fun _ _ _ d => o.diffV d, []⟩⟩
 
 variable {C D V : Type}
 
@@ -189,11 +194,16 @@ def hookCount (n : String) (cbs : List (Callback C D V)) : Nat :=
 def allBound (hasConstraint : Bool) (cbs : List (Callback C D V)) : Bool :=
   cbs.all (fun cb =>
     (match cb.onStart with
-      | some h => bindOk (startVars hasConstraint) h.expects
+      | some h => bindOk (startVars hasConstraint) h.bound
       | none => true)
     && (match cb.onEnd with
-      | some h => bindOk (endVars hasConstraint) h.expects
+      | some h => bindOk (endVars hasConstraint) h.bound
       | none => true))
+
+/-- the same callback whose hooks have other local variables -/
+def Callback.withLocals (ls le : List String) (cb : Callback C D V) : Callback C D V :=
+  { cb with onStart := cb.onStart.map (fun h => { h with locals := ls })
+            onEnd := cb.onEnd.map (fun h => { h with locals := le }) }
 
 /-- `_on_loop_start`: callbacks in list order, one `logs_[str(cb)].append(...)` each -/
 def startEvents (cbs : List (Callback C D V)) (k : Nat) (c : C) : List (String × V) :=
